@@ -245,7 +245,7 @@ macro_rules! numtraits {
 
             #[inline]
             fn div_rem(&self, other: &Self) -> (Self, Self) {
-                (self.div_floor(other), self.mod_floor(other))
+                (*self / *other, *self % *other)
             }
         }
 
